@@ -42,6 +42,8 @@ def behaviours(c, w, n):
         out += [["blockedclose"], ["blockedcancel"]]
     if c == "split" and w >= 2:
         out.append(["abandonother"])
+    if c not in P.NO_CLOSE_DURING_FIRST:
+        out.append(["closeduringfirst"])
     return out
 
 
@@ -56,6 +58,12 @@ def gen(rng, tier, open_keys):
                 for _ in range(reps):
                     for s in P.seeds_for(rng, 1):
                         out.append(mk(c, w, b, P.gen_input(rng, n), beh, s, rng.choice([1, 2, 4, 8])))
+            if c in P.BADOPTS_OK:
+                # a rejected option set (recovered panics cannot be excluded): exhaust must end at once, and the
+                # stop behaviours must still unwind everything
+                for beh in [["exhaust"], ["exhaust"]] + ([["close", 0], ["cancel", 0], ["closeduringfirst"]] if c not in ("pp", "pfe", "worker") else [["cancel", 0]]):
+                    for _ in range(reps):
+                        out.append(mk(c, w, b, P.gen_input(rng, n), beh, P.seeds_for(rng, 1)[0], rng.choice([1, 2, 4, 8]), badopts=True))
             if c == "split" and w >= 2 and KEY_D25 not in open_keys:
                 out.append(mk(c, w, b, P.gen_input(rng, n), ["abandonfirst"], rng.randrange(1, 1 << 30), rng.choice([1, 2, 4])))
     rng.shuffle(out)
@@ -68,7 +76,13 @@ def corpus():
             mk("merge", 3, 0, [1, 2, 3, 4, 5, 6, 7], ["closecancel", 1], 7, 4),
             mk("pbuf", 2, 0, [1, 2, 3], ["blockedclose"], 8, 2),
             mk("split", 3, 0, [1, 2, 3, 4, 5, 6, 7], ["abandonother"], 4, 2),
-            mk("genpar", 4, 0, [1, 2, 3, 4, 5, 6, 7, 8, 9], ["blockedcancel"], 9, 8)]
+            mk("genpar", 4, 0, [1, 2, 3, 4, 5, 6, 7, 8, 9], ["blockedcancel"], 9, 8),
+            mk("map", 3, 0, [1, 2, 3, 4, 5, 6, 7, 8], ["exhaust"], 10, 4, badopts=True),
+            mk("itgen", 2, 0, [1, 2, 3], ["exhaust"], 11, 2, badopts=True),
+            mk("pfe", 3, 0, [1, 2, 3, 4], ["exhaust"], 12, 2, badopts=True),
+            mk("merge", 3, 0, list(range(1, 65)), ["closeduringfirst"], 13, 4),
+            mk("genpar", 2, 0, list(range(1, 65)), ["closeduringfirst"], 14, 4),
+            mk("dtmap", 1, 0, list(range(1, 17)), ["closeduringfirst"], 15, 2)]
 
 
 def known_witnesses():
